@@ -136,6 +136,10 @@ Judge(e, n, pre, post) ==
   \* C13: the heights passed to the new-consensus-round callback strictly increase
   /\ Chk(LET all == H.rounds \o [i \in DOMAIN e.rounds |-> e.rounds[i].h] IN
            \A i, j \in DOMAIN all : (i < j /\ j > Len(H.rounds)) => all[i] < all[j], "c13_round_heights_not_increasing")
+  \* C18: the leader a correct node computes for the view of a proposal - the proposer it names to its consumer when it
+  \* asks for the proposal's validation - is the member at position (view mod committee size), whatever view the node is in
+  /\ Chk((e.ev = "deliver" /\ same /\ m.k \in {"PP", "NV"}) => \A i \in DOMAIN e.vals : e.vals[i].by = LeaderM(pre.h, m.vm),
+         "c18_proposer_named_to_consumer_is_not_the_leader_of_the_view")
   \* C17 in situ: a message reaches the protocol logic of a term only if its height is that term's height
   /\ Chk(\A i \in DOMAIN e.stores : e.stores[i].h = e.stores[i].at, "c17_message_handled_by_term_of_other_height")
   \* C01 / C03 / C04 at every commit callback
@@ -165,7 +169,8 @@ Conforms(e, n, post) ==
   /\ Chk(pr.ns = post, "drift_state")
   /\ Chk(pr.out = Digests(e), "drift_sent")
   /\ Chk(pr.commits = [i \in DOMAIN e.commits |-> e.commits[i].blk], "drift_commits")
-  /\ Chk(pr.vals = [i \in DOMAIN e.vals |-> [blk |-> e.vals[i].blk, ok |-> e.vals[i].ok]], "drift_consumer_calls")
+  /\ Chk(pr.vals = [i \in DOMAIN e.vals |-> [blk |-> e.vals[i].blk, ok |-> e.vals[i].ok, by |-> e.vals[i].by]], "drift_consumer_calls")
+  /\ Chk(\A i \in DOMAIN e.proposedby : e.proposedby[i] = n, "drift_proposal_requested_in_another_name")
 
 NextHist(H, e) ==
   [pp |-> H.pp \cup {<<q.h, q.v, q.x>> : q \in SentMsgs(e, "PP")} \cup {<<q.h, q.v, q.pp.x>> : q \in SentMsgs(e, "NV")},
